@@ -537,6 +537,9 @@ pub fn vprogram(seed: u64, k: u64) -> String {
     if k % 5 == 4 {
         return vgenm::program(&mut rng);
     }
+    if k % 5 == 2 {
+        return vgenm::extra_program(&mut rng);
+    }
     let opts = vgen::VGenOpts { max_depth: 1 + (k % 3) as u32, matrices: k % 16 == 15, structs: k % 2 == 1, enums: k % 5 >= 3, pure: false };
     vgen::VGen::new(&mut rng, opts).program()
 }
